@@ -8,7 +8,7 @@ Import ListNotations.
 Close Scope Z_scope.
 
 Section Fit.
-  Variables (zero top : Z) (n : nat) (w : nat -> nat -> Z) (semi : bool).
+  Variables (zero top : Z) (n : nat) (w : nat -> nat -> Z) (semi : bool) (nl : nat).
   Variables (st : list bool) (lab0 : list nat).   (* prototype flags, original labels *)
   Hypothesis Hzt : (zero < top)%Z.
   Hypothesis Hw : forall p q, p < n -> q < n -> p <> q -> (zero <= w p q < top)%Z.
@@ -43,8 +43,9 @@ Section Fit.
     c_done : incl D (n_order nd);
     c_cert : forall p q, In p D -> q < n -> q <> p -> (hc h q <= Z.max (hc h p) (w p q))%Z;
     c_lab_f : semi = false -> n_label nd = lab0;
-    c_lab_a : forall q, q < n -> proto q \/ hc h q = top -> nth q (n_label nd) 0 = nth q lab0 0;
-    c_lab_b : forall q, q < n -> semi = true -> ~ proto q -> (hc h q < top)%Z ->
+    c_lab_a : forall q, q < n -> proto q \/ hc h q = top \/ q < nl ->
+        nth q (n_label nd) 0 = nth q lab0 0;
+    c_lab_b : forall q, q < n -> semi = true -> nl <= q -> ~ proto q -> (hc h q < top)%Z ->
         nth q (n_label nd) 0 = nth q (n_plabel nd) 0 }.
 
   (* ---------------- heap facts ---------------- *)
@@ -101,7 +102,7 @@ Section Fit.
     let pl := nth p (n_plabel nd) 0 in
     let h' := update Z.ltb top h q cur in
     let nd' := mkNodes (n_cost nd) (upd (n_pred nd) q (Some p))
-                 (if semi then upd (n_label nd) q pl else n_label nd)
+                 (if semi && Nat.leb nl q then upd (n_label nd) q pl else n_label nd)
                  (upd (n_plabel nd) q pl) (n_status nd) (n_relevant nd) (n_order nd) in
     Core D h' nd' /\ hcost h' = upd (hcost h) q cur.
   Proof.
@@ -139,7 +140,7 @@ Section Fit.
     - exact Hp'.
     - apply HC.
     - rewrite upd_length. apply HC.
-    - destruct semi; rewrite ?upd_length; apply HC.
+    - destruct (semi && Nat.leb nl q); rewrite ?upd_length; apply HC.
     - rewrite upd_length. apply HC.
     - apply HC.
     - apply HC.
@@ -178,18 +179,25 @@ Section Fit.
     - intros b x Hb Hx Hxb.
       rewrite (Hhcb b) by (apply (c_done _ _ _ HC); exact Hb).
       pose proof (c_cert _ _ _ HC b x Hb Hx Hxb). specialize (Hle x). lia.
-    - intros Hsemi. rewrite Hsemi. apply (c_lab_f _ _ _ HC); exact Hsemi.
-    - intros x Hx Hor. assert (Hne : x <> q).
-      { intros ->. destruct Hor as [Hor|Hor]; [contradiction|]. rewrite Hhcq in Hor. lia. }
-      rewrite Hhco in Hor by exact Hne.
-      replace (nth x (if semi then upd (n_label nd) q pl else n_label nd) 0)
-        with (nth x (n_label nd) 0)
-        by (destruct semi; [rewrite nth_upd_neq by congruence|]; reflexivity).
-      apply (c_lab_a _ _ _ HC); assumption.
-    - intros x Hx Hsemi Hnp Hxt. rewrite Hsemi.
+    - intros Hsemi. rewrite Hsemi. cbn [andb]. apply (c_lab_f _ _ _ HC); exact Hsemi.
+    - intros x Hx Hor. destruct (Nat.eq_dec x q) as [->|Hne].
+      + destruct Hor as [Hor|[Hor|Hor]]; [contradiction|rewrite Hhcq in Hor; lia|].
+        destruct (Nat.leb_spec nl q) as [Hnlq|_]; [lia|]. rewrite andb_false_r.
+        apply (c_lab_a _ _ _ HC); [exact Hq|right; right; exact Hor].
+      + rewrite Hhco in Hor by exact Hne.
+        replace (nth x (if semi && Nat.leb nl q then upd (n_label nd) q pl else n_label nd) 0)
+          with (nth x (n_label nd) 0)
+          by (destruct (semi && Nat.leb nl q); [rewrite nth_upd_neq by congruence|]; reflexivity).
+        apply (c_lab_a _ _ _ HC); assumption.
+    - intros x Hx Hsemi Hlx Hnp Hxt. rewrite Hsemi. cbn [andb].
       destruct (Nat.eq_dec x q) as [->|Hne].
-      + rewrite !nth_upd_eq by assumption. reflexivity.
-      + rewrite !nth_upd_neq by congruence. rewrite Hhco in Hxt by exact Hne.
+      + destruct (Nat.leb_spec nl q) as [_|Hlt']; [|lia].
+        rewrite !nth_upd_eq by assumption. reflexivity.
+      + rewrite Hhco in Hxt by exact Hne.
+        replace (nth x (if Nat.leb nl q then upd (n_label nd) q pl else n_label nd) 0)
+          with (nth x (n_label nd) 0)
+          by (destruct (Nat.leb nl q); [rewrite nth_upd_neq by congruence|]; reflexivity).
+        rewrite nth_upd_neq by congruence.
         apply (c_lab_b _ _ _ HC); assumption.
   Qed.
 
@@ -198,7 +206,7 @@ Section Fit.
   Lemma relax_step D h nd p q :
     Core D h nd -> In p (n_order nd) ->
     (forall b, In b (n_order nd) -> (hc h b <= hc h p)%Z) -> q < n ->
-    let r := fit_relax Z.ltb top semi w p (h, nd) q in
+    let r := fit_relax Z.ltb top semi nl w p (h, nd) q in
     Core D (fst r) (snd r) /\ n_order (snd r) = n_order nd /\
     (forall x, (hc (fst r) x <= hc h x)%Z) /\
     (forall b, In b (n_order nd) -> hc (fst r) b = hc h b) /\
@@ -234,7 +242,7 @@ Section Fit.
   Lemma round_spec D h1 nd1 p :
     Core D h1 nd1 -> n_order nd1 = D ++ [p] ->
     (forall b, In b (D ++ [p]) -> (hc h1 b <= hc h1 p)%Z) ->
-    let r := fold_left (fit_relax Z.ltb top semi w p) (seq 0 n) (h1, nd1) in
+    let r := fold_left (fit_relax Z.ltb top semi nl w p) (seq 0 n) (h1, nd1) in
     Core (D ++ [p]) (fst r) (snd r) /\ n_order (snd r) = D ++ [p].
   Proof.
     intros HC Hord Hbl. cbv zeta.
@@ -243,7 +251,7 @@ Section Fit.
       (forall b, In b (D ++ [p]) -> hc (fst a) b = hc h1 b) /\
       (forall x, x < k -> x <> p -> (hc (fst a) x <= Z.max (hc h1 p) (w p x))%Z)).
     assert (Hpin : In p (D ++ [p])) by (apply in_or_app; right; left; reflexivity).
-    assert (HP : P n (fold_left (fit_relax Z.ltb top semi w p) (seq 0 n) (h1, nd1))).
+    assert (HP : P n (fold_left (fit_relax Z.ltb top semi nl w p) (seq 0 n) (h1, nd1))).
     { apply fold_seq_inv.
       - intros k [h nd] Hk (A & B & C & E). cbn [fst snd] in A, B, C, E.
         assert (Hbl' : forall b, In b (n_order nd) -> (hc h b <= hc h p)%Z).
@@ -258,7 +266,7 @@ Section Fit.
       - unfold P; cbn [fst snd]. split; [exact HC|]. split; [exact Hord|].
         split; [reflexivity|]. intros x Hx; lia. }
     destruct HP as (A & B & C & E).
-    destruct (fold_left (fit_relax Z.ltb top semi w p) (seq 0 n) (h1, nd1)) as [h2 nd2].
+    destruct (fold_left (fit_relax Z.ltb top semi nl w p) (seq 0 n) (h1, nd1)) as [h2 nd2].
     cbn [fst snd] in *. split; [|exact B].
     destruct A. constructor; try assumption.
     - rewrite B. apply incl_refl.
@@ -346,7 +354,7 @@ Section Fit.
       + intros b x Hb Hx Hxb. rewrite !Hhc. apply (c_cert _ _ _ HC); assumption.
       + apply HC.
       + intros x Hx Hor. rewrite Hhc in Hor. apply (c_lab_a _ _ _ HC); assumption.
-      + intros x Hx Hsemi Hnp Hxt. rewrite Hhc in Hxt. apply (c_lab_b _ _ _ HC); assumption.
+      + intros x Hx Hsemi Hlx Hnp Hxt. rewrite Hhc in Hxt. apply (c_lab_b _ _ _ HC); assumption.
     - intros b Hb. rewrite !Hhc. apply in_app_or in Hb. destruct Hb as [Hb|[<-|[]]]; [|lia].
       apply (c_mono _ _ _ HC); auto.
   Qed.
@@ -375,7 +383,7 @@ Section Fit.
 
   Lemma fit_loop_spec fuel : forall h nd,
     Core (n_order nd) h nd -> n <= length (n_order nd) + fuel ->
-    let r := fit_loop Z.ltb top fuel n semi w h nd in
+    let r := fit_loop Z.ltb top fuel n semi nl w h nd in
     Core (n_order (snd r)) (fst r) (snd r) /\ (forall q, q < n -> In q (n_order (snd r))).
   Proof.
     induction fuel as [|f IH]; intros h nd HC Hlen; cbv zeta.
@@ -512,10 +520,10 @@ Section Fit.
     - intros p q [].
     - intros _. apply (s_label _ _ _ HS).
     - intros q Hq _. rewrite (s_label _ _ _ HS). reflexivity.
-    - intros q Hq _ Hnpq Hlt. rewrite (Hnp q Hq Hnpq) in Hlt. lia.
+    - intros q Hq _ _ Hnpq Hlt. rewrite (Hnp q Hq Hnpq) in Hlt. lia.
   Qed.
 
-  Notation ndF := (compete Z.ltb zero top semi n w nd0).
+  Notation ndF := (compete Z.ltb zero top semi nl n w nd0).
 
   Lemma compete_core : exists h, Core (n_order ndF) h ndF /\ (forall q, q < n -> In q (n_order ndF)).
   Proof.
@@ -529,7 +537,7 @@ Section Fit.
     cbn [fst snd] in HS. pose proof (seed_core h nd1 HS) as HC.
     rewrite <- (s_order _ _ _ HS) in HC.
     pose proof (fit_loop_spec n h nd1 HC ltac:(lia)) as HF. cbv zeta in HF.
-    exists (fst (fit_loop Z.ltb top n n semi w h nd1)). exact HF.
+    exists (fst (fit_loop Z.ltb top n n semi nl w h nd1)). exact HF.
   Qed.
 
   (* ---------------- the results, stated on the final node table ---------------- *)
@@ -646,14 +654,16 @@ Section Fit.
 
   Theorem fit_status_label :
     n_status ndF = st /\ (semi = false -> n_label ndF = lab0) /\
-    (semi = true -> forall q, q < n ->
+    (forall q, q < n -> q < nl -> nth q (n_label ndF) 0 = nth q lab0 0) /\
+    (semi = true -> forall q, q < n -> nl <= q ->
        nth q (n_label ndF) 0 = if nth q st false then nth q lab0 0 else plabelF q).
   Proof.
     destruct compete_core as (h & HC & Hall).
     split; [apply (c_status _ _ _ HC)|]. split; [apply (c_lab_f _ _ _ HC)|].
-    intros Hsemi q Hq. destruct (nth q st false) eqn:Est.
+    split; [intros q Hq Hlq; apply (c_lab_a _ _ _ HC q Hq); right; right; exact Hlq|].
+    intros Hsemi q Hq Hlq. destruct (nth q st false) eqn:Est.
     - apply (c_lab_a _ _ _ HC q Hq). left. exact Est.
-    - apply (c_lab_b _ _ _ HC q Hq Hsemi); [unfold proto; congruence|].
+    - apply (c_lab_b _ _ _ HC q Hq Hsemi Hlq); [unfold proto; congruence|].
       pose proof (c_range _ _ _ HC q Hq). destruct (Z.eq_dec (hc h q) top) as [E|E]; [|lia].
       apply (c_white _ _ _ HC q Hq) in E. pose proof (proj2 (c_black _ _ _ HC q Hq) (Hall q Hq)).
       congruence.
